@@ -191,19 +191,41 @@ func (f *fileCtx) walk() {
 			if f.mode != "explore" {
 				break
 			}
-			for _, a := range x.Call.Args {
+			// the arguments of a go statement are evaluated by the spawning goroutine
+			var names, exprs []string
+			for i, a := range x.Call.Args {
 				if !pure(a) {
-					f.unsupported(x, "go statement with a non-trivial argument")
+					name := fmt.Sprintf("vrtg%d_%d", f.fset.Position(x.Pos()).Line, i)
+					names, exprs = append(names, name), append(exprs, f.text(a))
+					f.repl(a.Pos(), a.End(), name)
 				}
 			}
-			f.repl(x.Pos(), x.Call.Pos(), "vrt.Go(func() { ")
-			f.ins(x.End(), " })")
+			if len(names) > 0 {
+				if x.Call.Ellipsis.IsValid() {
+					f.unsupported(x, "go statement with a non-trivial variadic argument")
+				}
+				f.repl(x.Pos(), x.Call.Pos(), "{ "+strings.Join(names, ", ")+" := "+strings.Join(exprs, ", ")+"; vrt.Go(func() { ")
+				f.ins(x.End(), " }) }")
+			} else {
+				f.repl(x.Pos(), x.Call.Pos(), "vrt.Go(func() { ")
+				f.ins(x.End(), " })")
+			}
 		case *ast.SendStmt:
 			if f.mode != "explore" || inComm[x] {
 				break
 			}
 			if !pure(x.Chan) {
-				f.unsupported(x, "send on a channel expression with side effects")
+				// evaluate the channel once: { c := <expr>; vrt.BeforeSend(c); c <- v } (only where a block may stand)
+				switch parent(1).(type) {
+				case *ast.BlockStmt, *ast.CaseClause, *ast.CommClause:
+					name := fmt.Sprintf("vrts%d", f.fset.Position(x.Pos()).Line)
+					f.ins(x.Pos(), "{ "+name+" := "+f.text(x.Chan)+"; vrt.BeforeSend("+name+"); ")
+					f.repl(x.Chan.Pos(), x.Chan.End(), name)
+					f.ins(x.End(), " }")
+				default:
+					f.unsupported(x, "send on a channel expression with side effects outside a statement list")
+				}
+				break
 			}
 			f.ins(x.Pos(), "vrt.BeforeSend("+f.text(x.Chan)+"); ")
 		case *ast.UnaryExpr:
@@ -232,6 +254,30 @@ func (f *fileCtx) walk() {
 			if id, ok := x.Fun.(*ast.Ident); ok && id.Name == "close" {
 				if _, isBuiltin := f.info.Uses[id].(*types.Builtin); isBuiltin {
 					f.repl(id.Pos(), id.End(), "vrt.Close")
+				}
+			}
+			if id, ok := x.Fun.(*ast.Ident); ok && (id.Name == "make" || id.Name == "cap" || id.Name == "len") && len(x.Args) >= 1 {
+				if _, isBuiltin := f.info.Uses[id].(*types.Builtin); isBuiltin {
+					if t := f.info.TypeOf(x.Args[0]); t != nil {
+						if _, isCh := t.Underlying().(*types.Chan); isCh {
+							switch id.Name {
+							case "make":
+								// make(X[, n]) -> vrt.MakeChan(n, func(vrtn int) X { return make(X, vrtn) })
+								typ := f.text(x.Args[0])
+								n := "0"
+								if len(x.Args) > 1 {
+									n = f.text(x.Args[1])
+								}
+								f.repl(x.Pos(), x.End(), "vrt.MakeChan("+n+", func(vrtn int) "+typ+" { return make("+typ+", vrtn) })")
+								stack = stack[:len(stack)-1] // the children are part of the replaced text: not visited, no post-visit call
+								return false
+							case "cap":
+								f.repl(id.Pos(), id.End(), "vrt.ChanCap")
+							case "len":
+								f.repl(id.Pos(), id.End(), "vrt.ChanLen")
+							}
+						}
+					}
 				}
 			}
 		case *ast.SelectStmt:
@@ -303,6 +349,18 @@ func (f *fileCtx) selectStmt(x *ast.SelectStmt, inComm map[ast.Node]bool) {
 	hasDefault := false
 	var cases []string
 	idx := 0
+	// Go evaluates every channel expression and every send value exactly once, in source order, on
+	// entering the select. Operands that are not plain names are therefore evaluated into
+	// temporaries in the init statement of the generated switch (one parallel assignment keeps
+	// the order and keeps the whole thing a single statement: labels and break still work).
+	var tmpNames, tmpExprs []string
+	hoist := func(e ast.Expr, kind string) string {
+		name := fmt.Sprintf("vrt%s%d_%d", kind, f.fset.Position(x.Pos()).Line, len(tmpNames))
+		tmpNames = append(tmpNames, name)
+		tmpExprs = append(tmpExprs, "("+f.text(e)+")") // parentheses: a composite literal is not allowed bare in a switch header
+		f.repl(e.Pos(), e.End(), name)
+		return name
+	}
 	for _, c := range x.Body.List {
 		cc := c.(*ast.CommClause)
 		if cc.Comm == nil {
@@ -312,24 +370,26 @@ func (f *fileCtx) selectStmt(x *ast.SelectStmt, inComm map[ast.Node]bool) {
 		inComm[cc.Comm] = true
 		var ch ast.Expr
 		send := false
+		var val ast.Expr
 		switch s := cc.Comm.(type) {
 		case *ast.SendStmt:
-			ch, send = s.Chan, true
-			if !pure(s.Value) {
-				f.unsupported(s, "select send case with a non-trivial value")
-			}
+			ch, send, val = s.Chan, true, s.Value
 		case *ast.ExprStmt:
-			ch = s.X.(*ast.UnaryExpr).X
+			ch = unparen(s.X).(*ast.UnaryExpr).X
 		case *ast.AssignStmt:
-			ch = s.Rhs[0].(*ast.UnaryExpr).X
+			ch = unparen(s.Rhs[0]).(*ast.UnaryExpr).X
 		}
-		if !pure(ch) {
-			f.unsupported(cc, "select case on a channel expression with side effects")
+		chText := f.text(ch)
+		if !plainOperand(ch) {
+			chText = hoist(ch, "c")
+		}
+		if send && !plainOperand(val) {
+			hoist(val, "v")
 		}
 		if send {
-			cases = append(cases, "vrt.W("+f.text(ch)+")")
+			cases = append(cases, "vrt.W("+chText+")")
 		} else {
-			cases = append(cases, "vrt.R("+f.text(ch)+")")
+			cases = append(cases, "vrt.R("+chText+")")
 		}
 		// case <comm>:  ->  case i: <comm>;
 		f.repl(cc.Pos(), cc.Comm.Pos(), fmt.Sprintf("case %d: ", idx))
@@ -343,7 +403,37 @@ func (f *fileCtx) selectStmt(x *ast.SelectStmt, inComm map[ast.Node]bool) {
 		// a select without default is a terminating statement, a switch is not
 		f.ins(x.Body.Rbrace, "; default: panic(\"vrt: select returned no case\") ")
 	}
-	f.repl(x.Pos(), x.Body.Pos(), "switch vrt.Select("+hd+", "+strings.Join(cases, ", ")+") ")
+	init := ""
+	if len(tmpNames) > 0 {
+		init = strings.Join(tmpNames, ", ") + " := " + strings.Join(tmpExprs, ", ") + "; "
+	}
+	f.repl(x.Pos(), x.Body.Pos(), "switch "+init+"vrt.Select("+hd+", "+strings.Join(cases, ", ")+") ")
+}
+
+func unparen(e ast.Expr) ast.Expr {
+	for {
+		p, ok := e.(*ast.ParenExpr)
+		if !ok {
+			return e
+		}
+		e = p.X
+	}
+}
+
+// plainOperand: an operand that may be evaluated again without any effect (names, field
+// selections, literals) - everything else is evaluated once into a temporary.
+func plainOperand(e ast.Expr) bool {
+	switch x := e.(type) {
+	case *ast.Ident, *ast.BasicLit:
+		return true
+	case *ast.SelectorExpr:
+		return plainOperand(x.X)
+	case *ast.StarExpr:
+		return plainOperand(x.X)
+	case *ast.ParenExpr:
+		return plainOperand(x.X)
+	}
+	return false
 }
 
 func (f *fileCtx) rangeStmt(x *ast.RangeStmt) {
@@ -387,7 +477,20 @@ func (f *fileCtx) rangeStmt(x *ast.RangeStmt) {
 			f.ins(x.Body.Lbrace+1, fmt.Sprintf(" %s %s %s[%s];", val, op, m, kvar))
 		}
 	case isChan(t):
-		f.unsupported(x, "range over a channel")
+		// for v := range ch { body }  ->  for vrtr := ch; ; { v, vrtok := vrt.Recv2(vrtr); if !vrtok { break }; body }
+		n := f.fset.Position(x.Pos()).Line
+		tmp, ok := fmt.Sprintf("vrtr%d", n), fmt.Sprintf("vrtok%d", n)
+		recv := ""
+		switch {
+		case x.Key == nil || f.text(x.Key) == "_":
+			recv = fmt.Sprintf(" _, %s := vrt.Recv2(%s);", ok, tmp)
+		case x.Tok == token.ASSIGN:
+			recv = fmt.Sprintf(" var %s bool; %s, %s = vrt.Recv2(%s);", ok, f.text(x.Key), ok, tmp)
+		default:
+			recv = fmt.Sprintf(" %s, %s := vrt.Recv2(%s);", f.text(x.Key), ok, tmp)
+		}
+		f.repl(x.Pos(), x.Body.Pos(), fmt.Sprintf("for %s := (%s); ; ", tmp, f.text(x.X)))
+		f.ins(x.Body.Lbrace+1, recv+fmt.Sprintf(" if !%s { break };", ok))
 	}
 }
 
